@@ -9,6 +9,7 @@
 (*  "hash"     species counts 1..6 x {2-D, 3-D} x 3 boxes with unequal     *)
 (*             edges x M in {3,4,5,6,8} x 1-2 frames x explicit lists and  *)
 (*             default sets (qrange, every onlypositive option)            *)
+(*  "nearq"    explicit lists with distinct but nearly equal moduli        *)
 (*  "trace"    configurations recorded by the harness (direction B)        *)
 (***************************************************************************)
 EXTENDS DensityModes, Json, IOUtils
@@ -56,6 +57,32 @@ HashConfig(s) ==
       \* two-frame members with an even species count: labels rotated by one particle in the second frame
   IN  IF nf = 2 /\ K % 2 = 0 THEN base @@ [tys |-> <<ty, [i \in 1..n |-> ty[(i % n) + 1]]>>] ELSE base
 
+\* ---- "nearq": explicit lists holding wave vectors whose moduli are DISTINCT but nearly equal.  In the 20 x 21 box
+\* (S = 2: edges 10 and 10.5) the exact key of |q|^2 is 441 a^2 + 400 b^2; TLC searches the vectors of [0, 24]^2 for
+\* pairs whose keys differ by exactly 1 at keys above 60000: their moduli (|q| of order 10) differ by a few 1e-5 -
+\* far more than the 1e-6 rounding of the routine, so they are separate rows, but less than 1e-5 RELATIVE, so any
+\* tolerance-based grouping (np.isclose) merges them.
+NearL == <<20, 21>>
+NKey(v) == v[1] * v[1] * 441 + v[2] * v[2] * 400
+NearCand == {v \in (0..24) \X (0..24) : NKey(v) >= 60000}
+NearKeys == TLCEval({NKey(v) : v \in NearCand})
+NearLow  == TLCEval({k \in NearKeys : (k + 1) \in NearKeys})         \* lower key of a near-coincident pair
+NearUse  == LET ks == SortedSeq(NearLow) IN {ks[i] : i \in 1..Min2(4, Len(ks))}
+NearList == LET ks == SortedSeq(NearUse \cup {k + 1 : k \in NearUse})
+            IN  [i \in 1..Len(ks) |-> LET v == CHOOSE w \in NearCand : NKey(w) = ks[i] IN <<v[1], v[2]>>]
+            \o << <<1, 0>>, <<0, 1>>, <<3, 4>> >>
+NNear == 3 * 5 * 2
+NearConfig(s) ==
+  LET K  == 1 + (s % 3)
+      M  == Ms[1 + ((s \div 3) % 5)]
+      nf == 1 + ((s \div 15) % 2)
+      n  == K + 3
+      ty == HTypes(s, n, K)
+  IN  [ L |-> NearL, S |-> 2, M |-> M, types |-> ty,
+        frames |-> [f \in 1..nf |-> [i \in 1..n |-> [k \in 1..2 |-> (Hash(s + 977, f, i, k) % (2 * M)) - (M \div 2)]]],
+        sel |-> [kind |-> "list", vecs |-> NearList], id |-> 900000 + s ]
+ASSUME NearNonVacuous == Mode # "nearq" \/ NearLow # {}
+
 Tr == IF Mode = "trace" THEN ndJsonDeserialize(IOEnv.TRACE_FILE) ELSE << >>
 
 Init ==
@@ -67,6 +94,8 @@ Init ==
      /\ (c.frames[1][2][1] + 3 * c.frames[1][3][2] + 5 * c.frames[1][2][2] + 7 * c.types[2]) % NSHARDS = SHARD
   \/ /\ Mode = "hash"
      /\ \E s \in 0..(NHash - 1) : s % Step = 0 /\ (s \div Step) % NSHARDS = SHARD /\ c = HashConfig(s)
+  \/ /\ Mode = "nearq"
+     /\ \E s \in 0..(NNear - 1) : s % NSHARDS = SHARD /\ c = NearConfig(s)
   \/ /\ Mode = "trace"
      /\ \E n \in 1..Len(Tr) : n % NSHARDS = SHARD /\ c = Tr[n]
 
